@@ -378,8 +378,8 @@ func cmdCheck(args []string) {
 			}
 			okPath := r.Outcome == want && obsEqual(p.Obs, r.Obs)
 			if !okPath {
-				inconcl = append(inconcl, fmt.Sprintf("%s: witness disagrees with the native run (encoding or stub is wrong): draws[%s] symbolic outcome=%s obs=%v native outcome=%s %s obs=%v",
-					o.cfg.Harness, drawStr(p.Draws), want, p.Obs, r.Outcome, r.Msg, r.Obs))
+				inconcl = append(inconcl, fmt.Sprintf("%s: witness disagrees with the native run (encoding or stub is wrong): draws[%s] symbolic outcome=%s obs=%v native outcome=%s %s %s obs=%v",
+					o.cfg.Harness, drawStr(p.Draws), want, p.Obs, r.Outcome, r.FailID, r.Msg, r.Obs))
 				continue
 			}
 			validated++
@@ -530,8 +530,25 @@ func cmdCheck(args []string) {
 		eb, _ := json.MarshalIndent(ev, "", " ")
 		os.WriteFile(filepath.Join(*vdir, "evidence", *prop+".json"), eb, 0644)
 	}
-	for _, l := range knownLines {
-		fmt.Println(l)
+	{
+		// one line per finding (input class), with the number of obligations it explains
+		seen := map[string]int{}
+		var order []string
+		first := map[string]string{}
+		for _, l := range knownLines {
+			key := l
+			if i := strings.Index(l, " ["); i > 0 {
+				key = l[:i]
+			}
+			if seen[key] == 0 {
+				order = append(order, key)
+				first[key] = l
+			}
+			seen[key]++
+		}
+		for _, k := range order {
+			fmt.Printf("%s (%d violated obligation sites in this class)\n", first[k], seen[k])
+		}
 	}
 	fmt.Printf("%s %s: %d paths, %d queries (%d unsat), %d witnesses validated natively, %d obligations checked, %.1fs\n",
 		*prop, *tier, states, queries, unsat, validated, obligations, time.Since(start).Seconds())
